@@ -159,6 +159,58 @@ class Ctx:
             runner.cleanup(wd)
 
 
+def ml_string_families(ctx, text, cfg):
+    """For the F6/F25 class detectors: traces `text` and reports, for its multi-line string tokens, whether the
+    family of logical lines they sit in (the top-level line and all its descendants) has child lines.  The stale
+    child-line cache of the reflow (F6, F25) needs one; a literal in a family without child lines is outside the class.
+    returns {"ml_tokens": n, "in_family_with_children": n} or None"""
+    c = Case("mlfam", cfg, [], text)
+    try:
+        results, files, wd = runner.run_cases([c], mode="trace")
+    except Exception:
+        return None
+    ctx.workdirs.append(wd)
+    types, lines, lab = [], [], None
+    for tf in files:
+        try:
+            fh = open(tf, errors="replace")
+        except OSError:
+            continue
+        with fh:
+            for ln in fh:
+                p = ln.split()
+                if not p:
+                    continue
+                if p[0] == "PARSED":
+                    lab = "parsed"
+                elif p[0] == "LINES":
+                    lab = "lines-" + p[1]
+                elif p[0] in ("GENERICS", "STATE", "OUT", "RAW", "PASSES", "RELEX"):
+                    lab = None
+                elif p[0] == "t" and lab == "parsed":
+                    types.append(p[1])
+                elif p[0] == "l" and lab == "lines-deindent":
+                    lines.append((int(p[3]), [int(x) for x in p[6:]]))
+    if not lines:
+        return None
+    root = list(range(len(lines)))
+    for i, (par, _) in enumerate(lines):
+        j, seen = i, 0
+        while lines[j][0] >= 0 and lines[j][0] < len(lines) and seen < len(lines):
+            j = lines[j][0]
+            seen += 1
+        root[i] = j
+    fam_size = {}
+    for r in root:
+        fam_size[r] = fam_size.get(r, 0) + 1
+    ml = [i for i, t in enumerate(types) if t == "TextLiteral(MultiLine)"]
+    with_children = 0
+    for t in ml:
+        if any(t in toks and fam_size[root[i]] > 1 for i, (_, toks) in enumerate(lines)):
+            with_children += 1
+    return {"ml_tokens": len(ml), "in_family_with_children": with_children}
+
+
 def witness_cases(ctx, prop, **meta):
     """the concrete witnesses of this property's known findings, replayed through the same oracle"""
     from . import findings
@@ -229,13 +281,15 @@ def standard_streams(ctx, n_seed_cfgs=1, n_mut=200, n_soup=300, n_bytes=100, n_g
             t = t2 if t2 is not None else t
         cases.append(ctx.case("grammar", t, gen.random_cfg(rng)))
     for _ in range(n_gram * 2):
-        cases.append(ctx.case("literal", rng.choice(CONTEXTS) % gen_literal(rng), gen.random_cfg(rng)))
+        cases.append(ctx.case("literal", literal_text(rng), gen.random_cfg(rng)))
     return cases
 
 
 # ------------------------------------------------------------------ C01
 
 def run_c01(ctx):
+    rng = ctx.rng
+
     def oracle(r):
         ctx.count("nonblank_fold_checked")
         a = fold(strip_blank(r.case.input_bytes()))
@@ -247,7 +301,9 @@ def run_c01(ctx):
                      observed=r.out.hex()[:2000])
     cases = standard_streams(ctx, n_seed_cfgs=ctx.n(1, 4), n_mut=ctx.n(300, 6000), n_soup=ctx.n(300, 8000),
                              n_bytes=ctx.n(150, 3000), n_gram=ctx.n(100, 3000))
-    ctx.run_stream(cases, units=["settings", "recon", "r01", "tokok"], oracle=oracle)
+    for kind, text in gen.codepoint_sweep():
+        cases.append(ctx.case(kind, text, gen.random_cfg(rng) if rng.random() < 0.3 else gen.DEFAULT_CFG))
+    ctx.run_stream(cases, units=["settings", "recon", "r01", "tokok", "comment", "lower", "lex"], oracle=oracle)
     ctx.hypotheses["tok_ok (blank leading whitespace, content not starting inside U+3000)"] = "evaluated by unit tokok on every token of every trace"
     ctx.hypotheses["R01 (per-token content relation between lexer output and final tokens)"] = "evaluated by unit r01 on every token of every trace"
 
@@ -482,6 +538,8 @@ def run_c08(ctx):
         sep = rng.choice([" ", " ", "\n"])
         bt.append(("procedure P;\nbegin\n" + body + "A :=" + sep + lit + call + ";\nend;\n", gen.random_cfg(rng)))
     cases += boundary_width_cases(ctx, bt, "twice-decided", input_lines=True)
+    for kind, text in gen.codepoint_sweep(rng, frac=ctx.n(0.5, 1.0), wellformed_only=True):
+        cases.append(ctx.case(kind, text, gen.DEFAULT_CFG, meta={"wellformed": True}))
     cases += witness_cases(ctx, "C08", wellformed=True)
     wf_cases = [c for c in cases if c.meta.get("wellformed")]
     other = [c for c in cases if not c.meta.get("wellformed")]
@@ -535,7 +593,7 @@ def run_c09(ctx):
     for _ in range(ctx.n(1200, 20000)):
         lit = gen_literal(rng)
         cfg = gen.random_cfg(rng)
-        sample.append(ctx.case("literal", rng.choice(CONTEXTS) % lit, cfg))
+        sample.append(ctx.case("literal", literal_text(rng, lit), cfg))
     lits = [c for c in sample if c.meta["stream"] == "literal"][:: 2]
     res0 = ctx.run_stream([ctx.case("literal-pre", c.text, c.cfg) for c in lits], mode="fmt")
     for r in res0.values():
@@ -747,13 +805,26 @@ CONTEXTS = ["A := %s;", "Foo(%s, 1);", "const S = %s;", "X := %s + 'a';", "begin
             "procedure P;\nbegin\n  Writeln(%s);\nend;", "%s", "X := Y +\n  %s;", "  {$IFDEF A}\n  S := %s;\n  {$ENDIF}"]
 
 
+CONTEXTS_MULTI = ["Q := %s + %s;", "Run(%s, %s);", "A := [%s, %s, %s];", "procedure P;\nbegin\n  Log(%s, X, %s);\nend;",
+                  "begin\n  S := %s;\n  T := %s + U;\nend;", "const A = %s; B = %s;", "X := F(%s).G(%s);"]
+
+
+def literal_text(rng, lit=None):
+    """a literal in a statement context; one time in five several literals share one logical line"""
+    if rng.random() < 0.2:
+        ctxt = rng.choice(CONTEXTS_MULTI)
+        n = ctxt.count("%s")
+        return ctxt % tuple([lit if lit is not None else gen_literal(rng)] + [gen_literal(rng) for _ in range(n - 1)])
+    return rng.choice(CONTEXTS) % (lit if lit is not None else gen_literal(rng))
+
+
 def run_c12(ctx):
     rng = ctx.rng
     cases = []
     for _ in range(ctx.n(3000, 60000)):
         lit = gen_literal(rng)
         cfg = gen.random_cfg(rng)
-        cases.append(ctx.case("literal", rng.choice(CONTEXTS) % lit, cfg))
+        cases.append(ctx.case("literal", literal_text(rng, lit), cfg))
     for s in gen.seeds():
         if "'''" in s["text"]:
             cases.append(ctx.case("seed", s["text"], gen.random_cfg(rng, wrap=s["wrap"])))
@@ -1172,9 +1243,11 @@ def run_c02(ctx):
     ctx.run_stream(crcases, units=["spacing", "generics", "relex", "lex", "comment", "lower", "recon"])
     for _ in range(ctx.n(600, 12000)):
         lit = gen_literal(rng)
-        cases.append(ctx.case("literal", rng.choice(CONTEXTS) % lit, gen.random_cfg(rng)))
+        cases.append(ctx.case("literal", literal_text(rng, lit), gen.random_cfg(rng)))
     for text, kind, wrap in wellformed_variants(ctx, ctx.n(250, 5000), per=ctx.n(2, 4)):
         cases.append(ctx.case(kind, text, gen.random_cfg(rng, wrap=rng.choice([wrap, 20, 40, 80, 120, 1000000]))))
+    for kind, text in gen.codepoint_sweep(rng, frac=ctx.n(0.5, 1.0), wellformed_only=True):
+        cases.append(ctx.case(kind, text, gen.DEFAULT_CFG))
     ctx.run_stream(cases, units=["spacing", "generics", "invariants", "relex", "lex", "comment", "lower", "recon"])
     ctx.hypotheses["plan_ok: break after line comments / unterminated literals, inline comments never broken off"] = "re-scan oracle on every case (comment kinds are part of the compared token kinds)"
     ctx.hypotheses["lex_one_local (each sub-lexer depends on its own bytes plus a follow set)"] = "re-scan with the verified model lexer and with the real lexer on every case"
@@ -1279,6 +1352,10 @@ def run_c03(ctx):
     pool = wellformed_texts(ctx, ctx.n(150, 3000))
     bt = [(add_raw_comments(t, rng), gen.random_cfg(rng)) for t, _, _ in pool[:: ctx.n(3, 1)]]
     first += boundary_width_cases(ctx, bt, "boundary")
+    for kind, text in gen.codepoint_sweep(rng, frac=ctx.n(0.5, 1.0), wellformed_only=True):
+        first.append(ctx.case(kind, text, gen.DEFAULT_CFG))
+    for _ in range(ctx.n(400, 8000)):
+        first.append(ctx.case("literal", literal_text(rng), gen.random_cfg(rng)))
     res1 = ctx.run_stream(first, mode="fmt")
     second = []
     for c in first:
@@ -1294,8 +1371,10 @@ def run_c03(ctx):
     def oracle(r):
         ctx.count("second_pass_checked")
         if r.out != r.case.input_bytes():
-            ctx.fail("not_idempotent", r.case, "formatting the formatter's own output changes it; original input: %r" % str(r.case.meta.get("orig"))[:300],
-                     observed=r.out.hex()[:2000])
+            f = ctx.fail("not_idempotent", r.case, "formatting the formatter's own output changes it; original input: %r" % str(r.case.meta.get("orig"))[:300],
+                         observed=r.out.hex()[:2000])
+            if "'''" in (r.case.text if isinstance(r.case.text, str) else ""):
+                f["ml_families"] = ml_string_families(ctx, r.case.text, r.case.cfg)
 
     res2 = ctx.run_stream(second, mode="fmt", oracle=oracle)
     if not ctx.quick():
@@ -1484,8 +1563,10 @@ def run_c11(ctx):
                 w2, o2, c2 = outs[j]
                 ctx.count("width_pairs")
                 if maxlen(o2) <= w1 and o1 != o2:
-                    ctx.fail("width_is_style_switch", c1, "result for wrap_column=%d fits within %d but formatting with %d gives a different result" % (w2, w1, w1),
-                             observed=o1.hex()[:2000], expected=o2.hex()[:2000])
+                    f = ctx.fail("width_is_style_switch", c1, "result for wrap_column=%d fits within %d but formatting with %d gives a different result" % (w2, w1, w1),
+                                 observed=o1.hex()[:2000], expected=o2.hex()[:2000])
+                    if "'''" in (c1.text if isinstance(c1.text, str) else ""):
+                        f["ml_families"] = ml_string_families(ctx, c1.text, c1.cfg)
                 if o2.count(b"\n") > o1.count(b"\n"):
                     ctx.fail("wider_more_lines", c2, "wrap_column=%d gives %d lines, wrap_column=%d gives %d" % (w2, o2.count(b"\n"), w1, o1.count(b"\n")),
                              observed=o2.hex()[:2000], expected=o1.hex()[:2000], narrow_overflows=bool(maxlen(o1) > w1), wide_overflows=bool(maxlen(o2) > w2))
